@@ -211,6 +211,20 @@ fn api_workload(run: &mut Run, rng: &mut Rng, fr: &gen::Frame, n: u64) {
         if let Ok(k) = children(cid, Some(t)) {
             filter_ids(run, "cell_to_children", &k, || json!({"id": hu(cid), "target": t}));
         }
+        // the same two calls on a non-canonical spelling the library accepts (one stray bit below the marker): whatever it
+        // hands back must still be canonical - ids built arithmetically from the raw argument would carry the stray bit along
+        if let Some(w) = crate::orc::stray_alias(rng, c) {
+            let t = rng.below((res + 2) as u64) as i32 - 1;
+            if let Ok(p) = parent(w, Some(t)) {
+                run.count("canonical_filter.calls_on_alias_spellings");
+                filter_ids(run, "cell_to_parent", &[p], || json!({"id": hu(w), "alias_of": hu(cid), "target": t}));
+            }
+            let t = (res + rng.below(4) as i32).min(MAX_RES);
+            if let Ok(k) = children(w, Some(t)) {
+                run.count("canonical_filter.calls_on_alias_spellings");
+                filter_ids(run, "cell_to_children", &k, || json!({"id": hu(w), "alias_of": hu(cid), "target": t}));
+            }
+        }
         if rng.chance(0.1) {
             let flavour = *rng.pick(&["antichain", "lowres", "overlap", "complete"]);
             let set: Vec<u64> = gen::cell_set(rng, flavour).iter().map(|c| encode(*c)).collect();
